@@ -81,7 +81,7 @@ PlainInt(rec, tab, ii) ==
            IF ~TaylorDom(cap, xv, lo) THEN Skip
            ELSE LET dv == BrDev(yy, lo)  tt == TaylorTol(cap, kk, xv, lo) IN
                 IF dv > tt THEN Res(IF IsCutoff(rec, xv, yy, lo) THEN "cutoff" ELSE "value", dv, tt)
-                ELSE IF cap = 10 /\ kk >= 5 /\ AbsV(xv) <= 10 * (2 ^ cap) /\ ~TaylorAuthors(lo, yy) /\ ~TaylorAuthors(lo + 1, yy)
+                ELSE IF cap = 10 /\ kk >= 5 /\ lo >= 256 /\ AbsV(xv) <= 10 * (2 ^ cap) /\ ~TaylorAuthors(lo, yy) /\ ~TaylorAuthors(lo + 1, yy)
                      THEN Res("value", dv, 0)
                 ELSE Res("ok", dv, tt)
       [] op = "pwlsq" ->
@@ -115,7 +115,7 @@ PlainW(rec, tab, ii) ==
            ELSE Res(IF RecipWithinW(cap, xv, yy, NewtonAbs) THEN "ok" ELSE "value", 0, NewtonAbs)
       [] op = "isqrt" ->
            IF ~(1 <= xv /\ xv < 2097152) \/ ISqrtRel(kk)[1] # 0 \/ Has(rec, "w") THEN Skip
-           ELSE Res(IF ISqrtWithinW(cap, xv, WSmallAbs(yy), ISqrtAbs) /\ ~WNeg(yy) THEN "ok" ELSE "value", 0, ISqrtAbs)
+           ELSE Res(IF ISqrtWithinW(cap, xv, yy, ISqrtAbs) THEN "ok" ELSE "value", 0, ISqrtAbs)
       [] op = "gold" ->
            LET nn == NAt(rec, ii)  rl == NewtonRel(kk - 1) IN
            IF ~(1 <= xv /\ 1 <= nn /\ xv < 2 ^ (cap - 1) /\ nn < 2 ^ (cap - 1)) \/ Has(rec, "w") \/ kk < 4 THEN Skip
